@@ -111,6 +111,47 @@ Proof.
     exfalso; apply H; apply route_404_exact; rewrite E; discriminate.
 Qed.
 
+(* ... and the URL of anything served is the ESCAPED NAME of what is served: the list URL of the
+   escaped module path, or the file URL of the escaped path, the escaped requested version and one
+   of the three extensions.  (This is what lets the runner's oracle enumerate the servable URLs of
+   a directory by escaping the stored names, and demand 404 for every other URL.) *)
+Lemma unescape_path_string : forall e p, unescape_path O e = Some p -> unescape_string e = Some p.
+Proof.
+  intros e p H. unfold unescape_path in H. destruct (unescape_string e) as [q|]; [|discriminate].
+  destruct (check_path O q); [exact H|discriminate].
+Qed.
+
+Lemma unescape_version_string : forall e v, unescape_version O e = Some v -> unescape_string e = Some v.
+Proof.
+  intros e v H. unfold unescape_version in H. destruct (unescape_string e) as [q|]; [|discriminate].
+  destruct (check_elem O q); [exact H|discriminate].
+Qed.
+
+Theorem served_url_canonical : forall d ml url,
+  respond O d ml url <> NotFound ->
+  (exists p ep, escape_string p = Some ep /\ url = list_url ep /\ check_path O p = true /\
+                listed O ml p <> []) \/
+  (exists p v ep ev e a, escape_string p = Some ep /\ escape_string v = Some ev /\
+      url = file_url ep ev e /\ check_path O p = true /\ check_elem O v = true /\
+      (e = ext_info \/ e = ext_mod \/ e = ext_zip) /\
+      stored O d p (target_version O d ml p v) = Some a).
+Proof.
+  intros d ml url H. apply route_404_exact in H.
+  pose proof (route_total O url) as T.
+  destruct H as [[p [Hr Hl]]|[p [v [e [a [Hr [Hs Hc]]]]]]]; rewrite Hr in T; cbn [route_spec] in T.
+  - destruct T as [enc [Hu [Hun Hck]]]. left. exists p, enc.
+    split; [apply escape_unescape; apply unescape_path_string; exact Hun|]. auto.
+  - destruct T as [enc [encv [Hu [Hun [Hck [Hunv [Hckv _]]]]]]]. right. exists p, v, enc, encv, e, a.
+    split; [apply escape_unescape; apply unescape_path_string; exact Hun|].
+    split; [apply escape_unescape; apply unescape_version_string; exact Hunv|].
+    split; [exact Hu|]. split; [exact Hck|]. split; [exact Hckv|]. split; [|exact Hs].
+    destruct Hc as [[[He|He] _]|He]; auto.
+Qed.
+
+(* a version string that is not all lower-case hex is looked up literally *)
+Lemma target_version_literal : forall d ml p v, allhex v = false -> target_version O d ml p v = v.
+Proof. intros d ml p v H. unfold target_version. rewrite H. reflexivity. Qed.
+
 (* every extension other than info / mod / zip is 404 for a stored version — in particular an
    extension e for which the archive holds the dot-file "." ++ e (hypothesis Hdot is not used:
    it is there to say that the statement covers that case; see dotfile_example) *)
